@@ -73,6 +73,9 @@ Step(e) ==
                     IF f \in recv THEN 1
                     ELSE IF a.kind = "StartFeed" /\ a.f = f /\ a.fk \in {"dump", "ckpt"} /\ hd0.st = "open"
                     THEN Cardinality(M.store[hd0.n][hd0.u].docs[a.c])    \* a dump / a resuming feed delivers the existing documents
+                    ELSE IF a.kind = "StartFeed" /\ a.f = f /\ a.fk = "mdump" /\ hd0.st = "open"
+                    THEN Cardinality(M.store[hd0.n][hd0.u].docs["c0"]) + Cardinality(M.store[hd0.n][hd0.u].docs["c1"])
+                         + Cardinality(M.store[hd0.n][hd0.u].docs["c3"])
                     ELSE 0
         isLoose(f) == N.fd[f].loose \/ M.fd[f].loose
         nd == [f \in FeedIds |-> IF isLoose(f) THEN 0 ELSE lag.n[f] + e.fd[f].n - wantN(f)]      \* cumulative surplus of callbacks
@@ -86,6 +89,8 @@ Step(e) ==
               <<IF nd[f] < 0 THEN "feed-starved" ELSE "unexpected-callback", f, M.fd[f].st, M.fd[f].kind>>, 0, nd[f])
             + F(~(f \in dd /\ f \in lag.done /\ f \notin lag.doneRep), {"C16", "C20"}, e,
                 <<IF e.fd[f].done THEN "feed-ended-unexpectedly" ELSE "feed-not-ended", f, N.fd[f].kind>>, N.fd[f].done, e.fd[f].done)
+        \* nothing is delivered after a feed's done channel has closed (C16)
+        fAfter == SumOver(FeedIds, LAMBDA f : F(isLoose(f) \/ e.fd[f].after = 0, {"C16"}, e, <<"callback-after-done", f, N.fd[f].kind>>, 0, e.fd[f].after))
         fGor == F(~(gd # 0 /\ gd = lag.gor /\ gd # lag.gorRep), {"C20", "C16"}, e, <<"feed-goroutines">>, wantGor, e.gor)
     IN
     /\ M' = N
@@ -96,7 +101,7 @@ Step(e) ==
                gor |-> gd,
                gorRep |-> IF gd = 0 THEN 0 ELSE IF gd = lag.gor THEN gd ELSE lag.gorRep]
     /\ nfail' = nfail + fRes + SumOver(Handles, fHandle) + SumOver(Names, fReg)
-                + SumOver(Names \X {"d1", "d2"}, LAMBDA p : fDir(p[1], p[2])) + SumOver(FeedIds, fFeed) + fGor
+                + SumOver(Names \X {"d1", "d2"}, LAMBDA p : fDir(p[1], p[2])) + SumOver(FeedIds, fFeed) + fAfter + fGor
 
 Lag0 == [n |-> [f \in FeedIds |-> 0], nRep |-> [f \in FeedIds |-> 0], done |-> {}, doneRep |-> {}, gor |-> 0, gorRep |-> 0]
 
